@@ -246,6 +246,7 @@ def job_c14(job):
     from simdag.gen.kinds import build_kind_program
     rng = random.Random(job["perm_seed"]) if job.get("perm_seed") is not None else None
     names, phases, freg = build_kind_program(job["values"], job["source"])
+    names0, phases0 = list(names), [list(p) for p in phases]
     if job.get("same_ids"):
         # hand-written ids that are unique within a phase only (s0, s1, ... in every phase)
         renamed = []
@@ -269,9 +270,25 @@ def job_c14(job):
         # one-shot iterables, which is what the Fortran generator passes (get_statements_in_ast)
         phases = [iter(list(p)) for p in phases]
     buf = io.StringIO()
+    finder = SymbolKindFinder(freg)
+    if job.get("finder_used_before"):
+        # history of the finder object itself: an earlier inference on it, over the same phase and variable
+        # names, that could not succeed (nothing of it belongs to the next call)
+        from dagrt.language import CodeBuilder
+        used = sorted(set().union(*[st.get_written_variables() for p in phases0 for st in p]) or {"x"})
+        with CodeBuilder(names0[0]) as cbp:
+            cbp(used[0], "poison_a + poison_b")
+            cbp("poison_c", "%s*poison_a" % used[-1])
+        try:
+            with contextlib.redirect_stdout(io.StringIO()):
+                finder([names0[0]], [list(cbp.statements)])
+        except Exception:
+            pass
     try:
         with contextlib.redirect_stdout(buf):
-            if job.get("via_infer_kinds") and not job.get("as_iter"):
+            if job.get("finder_used_before") and not job.get("as_iter"):
+                tbl = finder(names, phases)
+            elif job.get("via_infer_kinds") and not job.get("as_iter"):
                 # the public entry point, on a description whose phases are presented in this order
                 from dagrt.data import infer_kinds
                 from dagrt.language import DAGCode, ExecutionPhase
